@@ -150,11 +150,12 @@ def write_pickle_xsec(path, name, wn, T, P_pa, xsec_cm2):
         pickle.dump(d, f)
 
 
-def write_pickle_ktable(path, name, wn, T, P_pa, k_cm2, weights):
+def write_pickle_ktable(path, name, wn, T, P_pa, k_cm2, weights, kdtype=float):
+    """kdtype: the type the coefficients are stored with in the file (files converted from other formats hold float32)"""
     ng = len(weights)
     d = {'name': name, 'bin_centers': np.array(wn, float), 'bin_edges': np.array(wn, float),
          'ngauss': ng, 't': np.array(T, float), 'p': np.array(P_pa, float) / 1e5,
-         'kcoeff': np.array(k_cm2, float), 'weights': np.array(weights, float),
+         'kcoeff': np.array(k_cm2, dtype=kdtype), 'weights': np.array(weights, float),
          'samples': np.cumsum(weights), 'resolution': 1.0, 'method': 'verif'}
     with open(path, 'wb') as f:
         pickle.dump(d, f)
